@@ -320,6 +320,16 @@ def r4(ctx):
                 sm = [bb for v, bb in st["targets"] if v == 1] if st and st["k"] == "switch" else []
                 if sm and any(sf_parts(fsl) == {0} and b.postdominates(fb, sm[0]) for fb, fsl in firsts):
                     okv, vb = True, vb_
+        # the bytes appended are the stored (normalised) value bytes themselves: no text conversion on the way
+        # (latin1_to_string / from_utf8_lossy re-encode bytes >= 0x80; a case or trim call changes the signed value)
+        conv = []
+        for vb_ in values:
+            ch_ = value_chain(vb_)
+            conv += [c_ for c_ in ch_.callee_names() if re.search(r"latin1_to_string$|from_utf8\w*$|to_(ascii_)?(lower|upper)case$|trim\w*$|replace\w*$|escape\w*$|chars$|char_indices$|to_string$|String::from$|normalize_header_value$|encode\w*$|decode\w*$", c_)]
+        if conv:
+            yield VIOL("C01-R4", "canonical_request/header-value-bytes", "a signed header's stored value is converted (%s) before it enters the canonical request: the bytes hashed are not the (normalised) bytes of the header" % sorted({c_.split("::")[-1] for c_ in conv}), where=b.span_of_block(values[0]))
+        else:
+            yield PASS("C01-R4", "canonical_request/header-value-bytes", "value bytes appended as stored", [])
         if not okv:
             yield VIOL("C01-R4", "canonical_request/header-values-all", "not every value of a signed header is appended (the append does not post-dominate the iteration's Some edge)", where=b.span_of_block(vb))
         else:
@@ -407,6 +417,39 @@ def r5(ctx):
             yield PASS("C01-R5", "from_request_parts/" + f, "derives from the received request as required", [site(b, ag[0], f)])
         else:
             yield VIOL("C01-R5", "from_request_parts/" + f, "field `%s` does not derive from the corresponding part of the received request (calls: %s)" % (f, [c for c in sl.callee_names() if c.startswith(("canonical::", "crypto::", "http::"))][:8]), where=loc(ag[2]["span"]))
+    # the method line is the request's method token as it is (`http::Method` is case-sensitive: `delete` and `DELETE` are
+    # different methods and must have different canonical requests); path / query / headers are handed to their
+    # canonicalisers as they are
+    if "request_method" in fields:
+        # walk the conversion chain from the field's operand back to `<parts>.method` (not a slice: `parts` may be
+        # re-bound by the folding code later in the function)
+        CONV = r"ToString::to_string$|Method::as_str$|to_owned$|ToOwned::to_owned$|String::from$|convert::From::from$|convert::Into::into$|AsRef::as_ref$|Deref::deref$|Clone::clone$"
+        alt = []
+        o_ = fields["request_method"]
+        for _ in range(8):
+            od_ = b.origin_def(o_)
+            if od_ and od_[0] == "def" and od_[1]["kind"] == "call":
+                if not re.search(CONV, od_[1]["term"]["callee"]):
+                    alt.append(od_[1]["term"]["callee"])
+                    break
+                o_ = od_[1]["term"]["args"][0]
+                continue
+            if od_ and od_[0] == "place" and "method" in place_fields(od_[1]):
+                break
+            if od_ and od_[0] in ("param",):
+                break
+            alt.append("a value that is not <parts>.method")
+            break
+        if alt:
+            yield VIOL("C01-R5", "from_request_parts/request_method/as-is", "the method line is not the request's method token as it is (through %s)" % sorted({c.split("::")[-1] for c in alt}), where=loc(ag[2]["span"]))
+        else:
+            yield PASS("C01-R5", "from_request_parts/request_method/as-is", "request_method = parts.method.to_string()", [])
+    for fn_, acc_ in ((r"canonical::canonicalize_uri_path$", r"Uri::path$"), (r"canonical::query_string_to_normalized_map$", r"Uri::query$")):
+        cs_ = [x for x in b.calls(fn_) if b.slice_op(x[1]["args"][0]).has_call(acc_) and not b.slice_op(x[1]["args"][0]).has_call(r"encoding::Encoding::decode$")]
+        for bi_, t_ in cs_[:1]:
+            alt = [c for c in b.slice_op(t_["args"][0]).callee_names() if not re.search(acc_ + r"|Option::<T>::unwrap_or(_default)?$|Deref::deref$|AsRef::as_ref$|Borrow::borrow$", c)]
+            if alt:
+                yield VIOL("C01-R5", "from_request_parts/%s/as-is" % fn_.split("::")[-1].strip("$"), "the request's %s is altered before it is canonicalised (through %s)" % ("path" if "path" in acc_ else "query string", sorted({c.split("::")[-1] for c in alt})), where=b.span_of_block(bi_))
     # canonicalize_uri_path(parts.uri.path(), options.s3)
     cp = one(b.calls(r"canonical::canonicalize_uri_path$"), "call of canonicalize_uri_path")
     s3 = b.slice_op(cp[1]["args"][1])
